@@ -348,10 +348,12 @@ def dummy_session(seed):
         def held():
             """the configuration the device holds now: the immutable part as constructed, en / div from its channel objects"""
             return [dict(c, en=bool(o.data.en), div=int(o.data.div)) for c, o in zip(cfg, objs)]
+        snaps = []
         try:
-            for session in range(r.randrange(2, 4)):
+            for session in range(r.randrange(2, 5)):
                 h.connect()
                 got, got2 = read_description(h), read_description2(h)
+                snaps.append([(bool(o.data.en), int(o.data.div)) for o in objs])
                 want = want_description(held(), flags, rxp)
                 if got != want or (got2 is not None and got2 != want):
                     via = "" if got != want else " (read through NxscopeHandler.dev_channel_get)"
@@ -374,6 +376,13 @@ def dummy_session(seed):
                     except Exception as e:   # the request path is C05's / C07's business, not judged here
                         res["history"].append(f"client: configuring channels {cs} raised {type(e).__name__}; disconnect()")
                     h.disconnect()
+                    if r.random() < 0.5:
+                        # ... and the device goes back to a state it was in at an earlier connect (the answers of that
+                        # connect are then repeated byte for byte, while the client has since written into what it read)
+                        back = r.choice(snaps)
+                        for o, (e, d) in zip(objs, back):
+                            o.data.en, o.data.div = e, d
+                        res["history"].append(f"device channels set back to the (en, div) they had at an earlier connect: {back[:12]}")
                 else:
                     h.disconnect()
                     # the device's state changes while nobody is connected
@@ -400,6 +409,43 @@ def dummy_session(seed):
                 "what": f"after connect() number {k + 1} of the same {cls} object to nxslib's simulated device (DummyDev) the "
                         f"reported Device/DeviceChannel data differ from the configuration the device holds: {describe_diff(want, got)}",
                 "expected": repr(want)[:1500], "observed": repr(got)[:1500], "history": res.get("history", [])}
+    return None
+
+
+def mutated_redecode(seed):
+    """ONE Parser decodes a channel-info response, the caller assigns the two writable fields of the record it got
+    (enable, divider — what the client itself does after an acknowledged request), and the SAME response is decoded
+    again: the second result must again be what is on the wire, and a record handed out earlier must not change."""
+    Parser, ParseRecv, ParseRecvCb, _, _, _, DeviceChannel = _mods()
+    r = random.Random(seed)
+    from nxslib.proto.serialframe import SerialFrame
+    ps = Parser()
+    nop = lambda d: None   # noqa: E731
+    R = ParseRecv(ParseRecvCb(nop, nop, nop, nop, nop))
+    sf = SerialFrame()
+    for k in range(12):
+        c = rand_chan(r, 8)
+        chan = r.randrange(0, 4)
+        enc = R.frame_chinfo_encode(DeviceChannel(chan, c["type"], c["vdim"], c["name"], en=c["en"], div=c["div"], mlen=c["mlen"]))
+        fr = sf.frame_decode(enc)
+        a = ps.frame_chinfo_decode(fr, chan)
+        if a is None:
+            continue
+        first = (bool(a.data.en), int(a.data.div))
+        new_en, new_div = (not first[0]), (first[1] + 1 + r.randrange(200)) % 256
+        a.data.en, a.data.div = new_en, new_div
+        b = ps.frame_chinfo_decode(sf.frame_decode(enc), chan)
+        second = None if b is None else (bool(b.data.en), int(b.data.div))
+        if second != first:
+            return {"key": "redecode-after-assignment", "seed": seed, "case": f"redecode seed={seed} step={k}",
+                    "what": f"one Parser decoded the channel-info response {hexs(enc)} for channel {chan} as (en, div) = {first}; the "
+                            f"caller assigned en={new_en}, div={new_div} to the record it was given; the same response decoded "
+                            "again by the same Parser no longer gives what is on the wire",
+                    "expected": repr(first), "observed": repr(second)}
+        if (bool(a.data.en), int(a.data.div)) != (new_en, new_div):
+            return {"key": "redecode-after-assignment", "seed": seed, "case": f"redecode seed={seed} step={k}",
+                    "what": "decoding a response changed a record handed out by an earlier decode",
+                    "expected": repr((new_en, new_div)), "observed": repr((bool(a.data.en), int(a.data.div)))}
     return None
 
 
@@ -616,6 +662,14 @@ class C06(Prop):
                 if len([x for x in viol if x["key"] == v["key"]]) >= 3:
                     break
         ev["coverage"]["description_sessions_dummydev"] = n
+        n = 0
+        for _ in range(40 if tier == "thorough" else 10):
+            v = mutated_redecode(rng.randrange(1 << 30))
+            n += 1
+            if v:
+                viol.append(v)
+                break
+        ev["coverage"]["redecode_after_assignment_runs"] = n
         return viol
 
     def replay(self, obj):
@@ -623,6 +677,8 @@ class C06(Prop):
             return session_description(obj["seed"])
         if obj.get("key") == "dummy-session-description":
             return dummy_session(obj["seed"])
+        if obj.get("key") == "redecode-after-assignment":
+            return mutated_redecode(obj["seed"])
         return self.oracle(obj["case"])
 
     def oracle(self, line, impl_out=None):
